@@ -41,6 +41,10 @@ class Ctx:
         self.rng = random.Random(seed * 7919 + hash(task) % 1000)
         self.timeout = QUICK_TIMEOUT if tier == "quick" else THOROUGH_TIMEOUT
         self.covers = 0
+        self._cache = {}
+        self._groups = {}
+        self._refuted_clauses = {}
+        self.hubs = None  # set of symbol names treated as hubs by pc slicing (None = no slicing)
 
     # ---- bookkeeping
     def under_contract(self, target, loops_cut=(), stubs=(), note=None):
@@ -132,12 +136,41 @@ class Ctx:
             except Unmodelled:
                 pass
         smt2 = []
-        status, model, info = smt.check_valid(pcn, g, self.timeout, smt2_out=smt2)
+        ckey = (frozenset(c.id for c in pcn), g.id)
+        cached = self._cache.get(ckey)
+        if cached is not None and cached[0] == "valid":
+            return self._record(name, "discharged", cached[1] + "(cached)", time.time() - t0, shape=shape)
+        status = None
+        if self.hubs is not None and pcn:
+            sl = slice_pc(pcn, g, self.hubs)
+            if len(sl) < len(pcn):
+                skey = (frozenset(c.id for c in sl), g.id)
+                c2 = self._cache.get(skey)
+                if c2 is not None and c2[0] == "valid":
+                    return self._record(name, "discharged", c2[1] + "(sliced,cached)", time.time() - t0, shape=shape)
+                if c2 is None:
+                    gs = self._group(sl)
+                    st2, _, info2 = gs.check_valid(g, min(self.timeout, 10.0))
+                    self._cache[skey] = (st2, info2.get("backend", "z3"))
+                    if st2 == "valid":
+                        return self._record(name, "discharged", info2["backend"] + "(sliced)", time.time() - t0, shape=shape)
+        gs = self._group(pcn)
+        status, model, info = gs.check_valid(g, self.timeout, smt2_out=smt2 if len(self.samples) < 2 else None)
+        self._cache[ckey] = (status, info.get("backend", "z3"))
         if status == "valid":
             return self._record(name, "discharged", info["backend"], time.time() - t0, shape=shape, smt2=smt2[0] if smt2 else None)
         if status == "refuted":
             return self._refuted(name, model or {}, "solver model", info["backend"], t0, replay, classify, shape)
         return self._record(name, "unknown", info.get("backend", "z3"), time.time() - t0, detail=str(info) + " goal=" + E.to_str(g, 300), shape=shape)
+
+    def _group(self, pcn):
+        gkey = tuple(c.id for c in pcn)
+        gs = self._groups.get(gkey)
+        if gs is None:
+            if len(self._groups) > 12:
+                self._groups.clear()
+            gs = self._groups[gkey] = smt.GroupSolver(pcn)
+        return gs
 
     def _refuted(self, name, model, why, backend, t0, replay, classify, shape):
         rep = None
@@ -202,7 +235,15 @@ class Ctx:
                 full = "%s@path%d.%d" % (nm, ob.path_id, k)
             rp = ob.meta.get("replay", replay)
             cl = ob.meta.get("classify", classify)
-            out.append(self.prove(full, ob.goal, ob.pc, replay=rp, classify=cl, shape=ob.meta.get("shape", shape)))
+            first = self._refuted_clauses.get(nm)
+            if first is not None:
+                # the clause is already refuted (with a replayed witness) on another path: not re-solved
+                out.append(self._record(full, "skipped", "none", 0.0, detail="same clause already refuted as " + first))
+                continue
+            r = self.prove(full, ob.goal, ob.pc, replay=rp, classify=cl, shape=ob.meta.get("shape", shape))
+            if r["status"] == "refuted":
+                self._refuted_clauses[nm] = r["id"]
+            out.append(r)
         return out
 
     def cover(self, name, conds):
@@ -251,6 +292,29 @@ class Ctx:
         with W.World(stubs=stubs, extra_globals=extra_globals, constants=constants):
             ex.run(thunk)
         return ex
+
+
+_SYMS = {}
+
+
+def symbols_of(n):
+    r = _SYMS.get(n.id)
+    if r is None:
+        r = frozenset((x.val if x.op == "var" else "uf:" + str(x.val)) for x in E.postorder([n]) if x.op in ("var", "uf"))
+        _SYMS[n.id] = r
+    return r
+
+
+def slice_pc(pcn, goal, hubs):
+    """Hypotheses that share a non-hub symbol with the goal, plus those that mention hub symbols only.
+    Proving the goal from a subset of the hypotheses is sound; on failure the caller retries with all of them."""
+    gs = symbols_of(goal) - hubs
+    keep = []
+    for c in pcn:
+        cs = symbols_of(c) - hubs
+        if not cs or (cs & gs):
+            keep.append(c)
+    return keep
 
 
 def simplify_under(pc, node):
